@@ -352,17 +352,19 @@ pub fn run(args: &Args) -> i32 {
     });
     if thorough {
         let alpha = [0u8, 1, 2, 3, 0x41, 0x44, 0x45, 0x7F, 0x80, 0xCC, 0xFE, 0xFF];
-        let n = base_even.len() as u64;
-        rep.run("byte-pairs", n * n * 144, 30, true, "base packet with 4 channels (even sample count): every pair of byte offsets x 12x12 boundary values (2 deviations)", |idx, loc| {
-            let d = unrank(idx, &[12, 12, n, n]);
-            if d[2] >= d[3] {
-                return;
-            }
-            let mut b = base_even.clone();
-            b[d[2] as usize] = alpha[d[0] as usize];
-            b[d[3] as usize] = alpha[d[1] as usize];
-            check_pwb(&b, loc, true);
-        });
+        for (bi, base) in [("4 channels, even sample count", base_even.clone()), ("3 channels, odd sample count", base2.clone()), ("no channels", base0.clone())].into_iter().enumerate() {
+            let n = base.1.len() as u64;
+            rep.run(&format!("byte-pairs-{bi}"), n * n * 144, 30, true, &format!("base packet ({}): every pair of byte offsets x 12x12 boundary values (2 deviations)", base.0), |idx, loc| {
+                let d = unrank(idx, &[12, 12, n, n]);
+                if d[2] >= d[3] {
+                    return;
+                }
+                let mut b = base.1.clone();
+                b[d[2] as usize] = alpha[d[0] as usize];
+                b[d[3] as usize] = alpha[d[1] as usize];
+                check_pwb(&b, loc, true);
+            });
+        }
     }
     rep.finish()
 }
